@@ -80,6 +80,15 @@ class Report:
         kn = [k for k in self.known if k.get('status') == 'known'
               and k.get('key') == o.key]
         o.status = KNOWN if kn else VIOL
+        if o.status == VIOL:
+            # the anchored function hands part of its work to a helper that is new to the reviewed tree and that
+            # the engine could not follow (returns inside loops, *args ...): what was extracted is not the whole
+            # construct, so this is "cannot decide", not a violation
+            from .helpers import UNFOLLOWED
+            un = UNFOLLOWED.get(site.split('{')[0])
+            if un:
+                o.status = ERR
+                o.detail = 'calls %s, which could not be followed; extracted so far: %s' % (sorted(un), detail)
         if kn:
             o.known_title = kn[0].get('what', '')
         return o
